@@ -24,9 +24,17 @@ def functions(tier):
     return u
 
 
-def native(shape, annotate, ret):
+DEFAULT_STYLES = ('str', 'none', 'tuple')
+
+
+def default_text(style, name):
+    """Three kinds of default value: a distinguishable string, None, and an empty tuple (repr ends in a parenthesis)."""
+    return {'str': repr('d_' + name), 'none': 'None', 'tuple': '()'}[style]
+
+
+def native(shape, annotate, ret, style='str'):
     """Reference function: native def returning its arguments keyed by parameter name."""
-    defaults = dict((p[0], repr('d_' + p[0])) for p in shape if p[2])
+    defaults = dict((p[0], default_text(style, p[0])) for p in shape if p[2])
     ann = dict((p[0], repr('A_' + p[0])) for p in shape) if annotate else None
     names = [p[0] for p in shape]
     body = 'return {%s}' % ', '.join('%r: %s' % (n, n) for n in names)
@@ -49,15 +57,18 @@ def params_data(sig, sort_kwo=False):
 def eval_shape(shape, st):
     has_po = any(p[1] == PO for p in shape)
     calls = callsem.calls_for(shape)
-    for annotate in (False, True):
-        for ret in (False, True):
-            ref = native(shape, annotate, ret)
+    styles = DEFAULT_STYLES if any(p[2] for p in shape) else ('str',)
+    for style, annotate, ret in [(st_, an_, re_) for st_ in styles for an_ in (False, True) for re_ in (False, True)]:
+        if style != 'str' and annotate:
+            continue
+        for _once in (0,):
+            ref = native(shape, annotate, ret, style)
             sig0 = inspect.signature(ref)
             text = str(sig0)
             ptext = text.rpartition(' -> ')[0] if ret else text
             ptext = ptext[1:-1]
             base = {'signature': text}
-            case = {'shape': space.to_json(shape), 'annotate': annotate, 'ret': ret}
+            case = {'shape': space.to_json(shape), 'annotate': annotate, 'ret': ret, 'defaults': style}
             want = params_data(sig0)
             want_sorted = params_data(sig0, sort_kwo=True)
             # ---- s(text) / f(text): every option combination, eager and postponed
@@ -85,7 +96,7 @@ def eval_shape(shape, st):
                         st.violation('s-does-not-reproduce-signature', dict(case, opts=opts, future=future),
                                      dict(base, options=opts, future=future, rebuilt=str(sig1)), {'options': ob})
                         continue
-                    st.seen('result', (shape, annotate, ret, ob, future))
+                    st.seen('result', (shape, annotate, ret, ob, future, style))
                     if annotate or ret or future:
                         continue    # call behaviour does not depend on annotations: executed once per shape and option set
                     n = 0
